@@ -543,9 +543,19 @@ class Interp:
         L = {0: None}
         for i, a in enumerate(args):
             L[i + 1] = a
-        bb = 0
+        return self.exec_blocks(f, L, 0, None)
+
+    def exec_blocks(self, f, L, bb, stop_at):
+        """execute from block `bb` with locals L; with stop_at (a set of block ids) execution stops when control
+        is about to re-enter one of them (kernel mode: one loop iteration) and ('stopped', bb) is returned"""
+        compile_fn(f)
+        self.stats.fns.add(f.name)
         blocks = f.blocks
+        first = True
         while True:
+            if stop_at is not None and not first and bb in stop_at:
+                return ('stopped', bb)
+            first = False
             stmts, term, raw = blocks[bb]
             self.stats.blocks += 1
             self.path_blocks += 1
@@ -557,7 +567,7 @@ class Interp:
             if k == 'goto':
                 bb = term[1]
             elif k == 'return':
-                return L[0]
+                return L[0] if stop_at is None else ('returned', L[0])
             elif k == 'call':
                 _, dest, callee, aops, nb = term
                 argv = [self.operand(f, L, a) for a in aops]
@@ -899,6 +909,8 @@ class Interp:
                     return v
                 if z3.is_int(v) and to in ('usize', 'u64', 'isize', 'i64', 'u128'):
                     return v
+                if z3.is_int(v) and to in ('u32', 'u16', 'u8'):
+                    return v % (1 << bits_of(to))      # truncating cast of a non-negative integer
                 raise Unsupported('IntToInt cast of symbolic value to ' + to)
             raise Unsupported('cast kind ' + kind)
         if k == 'len':
